@@ -6,7 +6,8 @@ import "github.com/vektah/gqlparser/v2/ast"
 
 // VerifTypeMapEvent describes one access to the generator's map from Go type
 // names to types: a lookup (get:absent, get:reuse, get:conflict), a checked
-// insertion (insert) or an unchecked write for a named fragment (write).
+// insertion (insert), an unchecked lookup by fragment name (peek) or an
+// unchecked write for a named fragment (write).
 // Existing* describe the entry under GoName before the access.
 type VerifTypeMapEvent struct {
 	Kind, GoName, GraphQLName string
